@@ -166,8 +166,8 @@ def lower_dfa(loc, name, enum, extra_rules=()):
     return located_rules(loc, rules, ID + "." + name)
 
 
-def build(ctx):
-    kb = KernelBuild(ID, TITLE)
+def recognisers(kb):
+    """C text of the extracted recognisers (contracts under #ifndef NOCONTRACT), shared with K36"""
     out = [_common.BASE, XDEF]
     n = 0
     # isOctalDigit
@@ -254,6 +254,12 @@ def build(ctx):
     kb.rules_fired = n
     text = "".join(out)
     extract.residue_scan(text, ID)
+    return text
+
+
+def build(ctx):
+    kb = KernelBuild(ID, TITLE)
+    text = recognisers(kb)
 
     h = [HARNESS_HEAD]
     for name in list(FUNCS) + ["isNegative", "isPositive"]:
